@@ -1,7 +1,11 @@
 (* Extraction of the hand-written executable models of C08. ExtrOcamlBasic only. *)
 From Coq Require Import ZArith List Extraction ExtrOcamlBasic.
+From MomoCommon Require Import GenPrelude.
+From C08 Require Gen_GrowCapacity Gen_ArrayBucket Gen_ArrayBucket_cnt Gen_ArrayBucket_s.
 From C08 Require ArrayBucketModel MultiMapModel WrapperModel.
 Separate Extraction
+  Gen_GrowCapacity.GrowCapacity Gen_ArrayBucket.pvMakeState Gen_ArrayBucket.pvGetFastMemPoolIndex Gen_ArrayBucket.pvGetMemPoolIndex
+  Gen_ArrayBucket_cnt.pvGetFastCount Gen_ArrayBucket_s.pvMakeState Gen_ArrayBucket_s.pvGetFastMemPoolIndex ArrayBucketModel.ab2_step
   ArrayBucketModel.ab_step ArrayBucketModel.ab_null ArrayBucketModel.rcount ArrayBucketModel.rcap
   ArrayBucketModel.pool_of ArrayBucketModel.fcount_of
   MultiMapModel.step MultiMapModel.st_empty MultiMapModel.traverse MultiMapModel.get_count
